@@ -10,6 +10,7 @@ import (
 
 	"github.com/tychoish/fun"
 	"github.com/tychoish/fun/dt"
+	"github.com/tychoish/fun/ers"
 	"github.com/tychoish/fun/itertool"
 	"github.com/tychoish/fun/risky"
 	"verif/simrt"
@@ -31,9 +32,10 @@ const (
 	ufSkip
 	ufError
 	ufEOF
+	ufAbort
 )
 
-var ufNames = []string{"none", "skip", "error", "eof"}
+var ufNames = []string{"none", "skip", "error", "eof", "abort"}
 
 type stage struct {
 	name string
@@ -125,6 +127,9 @@ func (u *userFn) hit() error {
 			return errInjected
 		case ufEOF:
 			return io.EOF
+		case ufAbort:
+			// not a skip: the sequence is truncated here like for any error
+			return fmt.Errorf("stage gives up: %w", ers.ErrCurrentOpAbort)
 		}
 	}
 	return nil
@@ -149,7 +154,7 @@ func c02Stage(ctx context.Context, allowFault bool) stage {
 	at, kind := 0, ufNone
 	if allowFault && simrt.Choose(3) == 0 {
 		at = 1 + simrt.Choose(5)
-		kind = 1 + simrt.Choose(3)
+		kind = 1 + simrt.Choose(4)
 	}
 	fdesc := ""
 	if kind != ufNone {
@@ -351,8 +356,19 @@ func c02Run(w *W) {
 	}
 	// ---- unary stages ----
 	nst := simrt.Choose(5)
+	abortPlanned := false
 	for i := 0; i < nst; i++ {
 		st := c02Stage(ctx, w.faulty())
+		if abortPlanned && strings.HasPrefix(st.name, "Join(") {
+			// ErrCurrentOpAbort ends the iteration for good, a following Join
+			// included (for a plain error the failing stage just ends and a
+			// Join moves on to its next operand): the statement does not say
+			// which, so nothing is concatenated behind an abort here
+			continue
+		}
+		if strings.Contains(st.name, "[abort@") {
+			abortPlanned = true
+		}
 		it = st.lib(it)
 		ref = st.ref(ref)
 		desc = append(desc, st.name)
